@@ -607,4 +607,23 @@ theorem verdicts_ok (lines : List (List String)) : ∀ (s : XSt) (m : MSt), Soun
         parseAns_l1Toks _ (step_readable s m h op) (step_canon s op)
       simp only [ha, e, List.length_cons, List.replicate_succ]
       rw [show verdicts (stepOp s op).1 m' rest = _ from ih _ m' h']
+/-! ## the cut `Driver.loopMon` makes (not proved: stated as a hypothesis) -/
+
+/-- textual copy of the local function `toks` of `Driver.loopMon` (`Driver/Loop.lean`) -/
+def loopToks (line : String) : List String := (line.trimAscii.toString.splitOn " ").filter (· ≠ "")
+
+/-- the line the framework hands to `pmodel netbufmon` for the output `o` -/
+def monLine (o : Out) : String := "> " ++ " ".intercalate (l1Toks o) ++ "\n"
+
+/-- the hypothesis of `C07.monitor_reads_loop_line_partial`, as a test (`KAT/NetbufAns.lean` evaluates it on an
+output of every shape) -/
+def loopCutOk (o : Out) : Bool := loopToks (monLine o) == ">" :: splitCh ' ' (" ".intercalate (l1Toks o))
+
+theorem reads_loop_line (o : Out) (hr : OutReadable o) (hc : OutCanon o) (hcut : loopCutOk o = true) :
+    ∃ ans, loopToks (monLine o) = ">" :: ans ∧ parseAns ans = o.ans := by
+  refine ⟨l1Toks o, ?_, parseAns_l1Toks o hr hc⟩
+  have := of_decide_eq_true (by simpa [loopCutOk] using hcut :
+    decide (loopToks (monLine o) = ">" :: splitCh ' ' (" ".intercalate (l1Toks o))) = true)
+  rw [this, split_l1]
+
 end Percival.Proofs.NetbufAns
